@@ -826,6 +826,8 @@ class Exec:
             st.hyps.append(h)
         st.memo.update(s2.memo)
         st.seen |= s2.seen
+        if hasattr(s2, "join_terms"):
+            st.join_terms = list(s2.join_terms)
         return self.truth(v)
 
     # ------------------------------------------------------------------ statements
@@ -877,6 +879,8 @@ class Exec:
                 st.hyps.append(h)
             st.memo.update(s2.memo)
             st.seen |= s2.seen
+            if hasattr(s2, "join_terms"):
+                st.join_terms = list(s2.join_terms)
             st.env[name.strip()] = v
         elif text.startswith("havoc "):
             self.havoc(st, text[6:].strip())
